@@ -993,7 +993,7 @@ func KeySort(vm *VM, pairs, sorted Term, k Cont, env *Env) *Promise {
 	case Variable:
 		break
 	default:
-		iter := ListIterator{List: s, Env: env}
+		iter := ListIterator{List: s, Env: env, AllowPartial: true}
 		for iter.Next() {
 			switch e := env.Resolve(iter.Current()).(type) {
 			case Variable:
